@@ -159,7 +159,9 @@ def crash_class(R: Dict[str, Any], prefix: List[Dict[str, Any]], exc) -> tuple:
       * the response has to be XML and has to carry a string XML cannot represent (lxml refuses it);
       * a request body of this history is nested deeper than NESTING_DEPTH levels and the interpreter's recursion limit is hit
         somewhere else than in the parsing of a body (which has its own except clause);
-      * Referable.update_from (PUT) raises AASd-022 because an idShort moves between two NamespaceSets of one namespace."""
+      * Referable.update_from (PUT) raises AASd-022 because an idShort moves between two NamespaceSets of one namespace;
+      * a stored xs:gYear / xs:gYearMonth value of year 0000 with a time zone has to be written (round 4);
+      * a stored xs:duration with a field beyond the float range has to be written (round 4)."""
     if exc is None:
         return None, None
     name, msg, frames = exc
@@ -172,7 +174,13 @@ def crash_class(R: Dict[str, Any], prefix: List[Dict[str, Any]], exc) -> tuple:
             and R["m"] == "PUT":
         return ("http:crash:PUT:update_from:idshort-moves-between-sets", "the replacement moves an idShort from one NamespaceSet of a namespace that has "
                 "several (an Operation's variables) to another; Referable.update_from adds before it removes")
-    if name == "RecursionError" and "json_list" not in frames and any(body_depth(Q) > NESTING_DEPTH for Q in prefix):
+    if name == "ValueError" and "year 0 is out of range" in msg and "_serialize_date_tzinfo" in frames:
+        return ("http:crash:response:zoned-year-zero-not-printable", "an xs:gYear / xs:gYearMonth value with year 0000 AND a time zone is parsed "
+                "and stored, but xsd_repr() cannot write it (it builds a datetime.date of year 0 to ask the zone for its offset)")
+    if name == "OverflowError" and "int too large to convert to float" in msg and "_serialize_duration" in frames:
+        return ("http:crash:response:duration-field-not-printable", "an xs:duration with a field of more than 308 digits is parsed and stored, but "
+                "xsd_repr() cannot write it (_serialize_duration formats the integer with {:.0f}, i.e. through a float)")
+    if name == "RecursionError" and "json_list" not in frames and "xml" not in frames and any(body_depth(Q) > NESTING_DEPTH for Q in prefix):
         return "http:crash:nesting-depth:RecursionError", f"a request body of the history is nested deeper than {NESTING_DEPTH} levels"
     return None, None
 
@@ -302,6 +310,9 @@ def grid_request(rng: random.Random, snapshot: List[Any], modelled_only: bool) -
 
 ODD_STRINGS = ["", " ", "a\x0bb", "\x00", "a\r\nX-Injected: 1", "a\nb", "\x7f\x85", "ä€", "\U0001F600", "\ud800", "\udfff\ud800", "￾", "￿", " ",
                "x" * 3000, "<a>&amp;]]><!--", "%s%d{0}\\", "'\"", "/", "..", "null", "0"]
+# (round 4) file names of uploads around the length limit of the File's value (a PathType: 2000); the first one is drawn often: a second
+# upload under a name the container holds already is stored under the name with a counter appended
+LONG_NAMES = ["/" + "n" * 1996 + ".b", "/" + "n" * 1990, "/" + "n" * 1999, "/" + "n" * 2000, "/" + "n" * 2100, "/d/" + "n" * 5000 + ".txt"]
 HEADER_HOSTILE = ["a\r\nX-Injected: 1", "a\nb", "a\rb", "ä€", "x" * 3000, "a\x0bb", " "]
 XML_HOSTILE = ["a\x0bb", "\x00", "\ud800", "\udfff\ud800", "\ufffe", "\uffff", "\x7f\x85", "<a>&amp;]]><!--", "\U0001F600", "a\r\nb"]
 
@@ -320,9 +331,56 @@ def S(rng: random.Random, nice: str, key: str) -> str:
     return nice if rng.random() < 0.93 else odd(rng, key)
 
 
+# (round 4) lexical edge cases per value type - what a type's parser may take and its printer may not give back: zero / five-digit
+# years, 24:00:00, leap seconds, zone extremes, NaN / INF spellings, huge integers and decimals, long durations, signs, spaces
+TYPED_EDGE = {
+    "xs:gYear": ["0000", "0000Z", "0000+01:00", "0001", "9999-14:00", "10000", "-0001", "2020+14:00", "2020-14:00", "2020+14:01", "2020Z"],
+    "xs:gYearMonth": ["0000-01", "0000-01Z", "0000-12-05:00", "0001-01+14:00", "9999-12-14:00", "10000-01", "2020-13", "2020-00"],
+    "xs:gMonth": ["--01", "--12Z", "--13", "--00", "--12+14:00", "--01--"],
+    "xs:gDay": ["---01", "---31Z", "---32", "---00", "---31-14:00"],
+    "xs:gMonthDay": ["--02-29", "--02-29Z", "--02-30", "--12-31+14:00", "--04-31"],
+    "xs:date": ["0000-01-01", "0001-01-01", "0001-01-01+14:00", "9999-12-31-14:00", "10000-01-01", "-0001-01-01", "2020-02-30", "2020-01-01+14:00",
+                "2020-01-01+14:01", "2020-01-01+24:00", "2020-01-01Z"],
+    "xs:dateTime": ["0000-01-01T00:00:00", "0001-01-01T00:00:00+14:00", "9999-12-31T23:59:59-14:00", "9999-12-31T24:00:00", "2020-01-01T24:00:00",
+                    "2020-12-31T24:00:00Z", "2020-01-01T23:59:60", "2020-01-01T12:00:00.1234567", "2020-01-01T12:00:00.123456789012", "10000-01-01T00:00:00",
+                    "-0001-01-01T00:00:00", "2020-01-01T00:00:00+14:00", "2020-01-01T00:00:00+24:00", "2020-01-01T24:00:01"],
+    "xs:time": ["24:00:00", "24:00:00Z", "23:59:60", "00:00:00+14:00", "00:00:00-14:00", "12:00:00.1234567", "24:00:00.0", "00:00:00+14:01", "25:00:00"],
+    "xs:duration": ["P0D", "-P0D", "P999999999Y", "P99999999999999999999D", "PT0.000001S", "PT0.0000001S", "P1Y2M3DT4H5M6.7S", "-P1Y", "PT1e3S", "P", "PT",
+                    "P1.5Y", "PT99999999999999999999999999S", "P99999999999Y99999999999M", "PT1000000000000000H", "P" + "9" * 400 + "D"],
+    "xs:double": ["NaN", "INF", "-INF", "+INF", "1e400", "-1e400", "1e-400", "-0", "Infinity", "inf", "nan", "1_0", "0x10", " 1", ".5", "5.", "1E5"],
+    "xs:float": ["NaN", "INF", "-INF", "1e400", "3.4028235e39", "inf", "1e39", "-0"],
+    "xs:decimal": ["1e5", "NaN", "sNaN", "INF", "Infinity", "-Infinity", "1" + "0" * 400, "0." + "0" * 400 + "1", "-0", "+1.0", ".5", "5.", "1_0", "1E+400",
+                   "9" * 4400, "0." + "9" * 5000],
+    "xs:integer": ["1" + "0" * 4299, "1" + "0" * 4300, "1" + "0" * 5000, "-" + "9" * 4300, "-0", "+1", "1_0", " 1", "٣", "1.0", "1e3"],
+    "xs:long": ["9223372036854775807", "9223372036854775808", "-9223372036854775808", "-9223372036854775809"],
+    "xs:int": ["2147483647", "2147483648", "-2147483649"], "xs:short": ["32767", "32768"], "xs:byte": ["127", "128", "-128", "-129"],
+    "xs:nonNegativeInteger": ["0", "-0", "-1", "+0", "9" * 4300], "xs:positiveInteger": ["0", "1", "+1"], "xs:nonPositiveInteger": ["0", "1", "-0", "+0"],
+    "xs:negativeInteger": ["0", "-1", "-0", "-" + "9" * 4299],
+    "xs:unsignedLong": ["18446744073709551615", "18446744073709551616", "-0", "-1"], "xs:unsignedInt": ["4294967295", "4294967296"],
+    "xs:unsignedShort": ["65535", "65536"], "xs:unsignedByte": ["255", "256"],
+    "xs:boolean": ["true", "false", "1", "0", "True", " true"],
+    "xs:hexBinary": ["", "0", "0g", "AB", "ab", " AB", "A B"],
+    "xs:base64Binary": ["", "A", "AA==", "AA=", "A A=", "!!!!", "AAAA\n", "=AAA", "AA==AA=="],
+    "xs:anyURI": ["", " ", "a b", "ä", "http://["],
+    "xs:string": ["", " ", "\t"],
+}
+
+
+def typed_lit(rng: random.Random, value_type: Optional[str] = None) -> tuple:
+    """(valueType, lexical form) for a typed attribute: the plain string mostly, otherwise one of the forms C10 replaces by one another
+    or an edge case of its type"""
+    r = rng.random()
+    if value_type is None and r < 0.55:
+        return "xs:string", S(rng, rng.choice(["v", "", "1"]), "value")
+    if value_type is None and r < 0.7:
+        return c10.typed(rng)
+    vt = value_type or rng.choice(sorted(TYPED_EDGE))
+    return vt, rng.choice(TYPED_EDGE.get(vt) or ["1"])
+
+
 ELEM_CLASSES = ["Property", "MultiLanguageProperty", "Range", "Blob", "File", "ReferenceElement", "RelationshipElement", "AnnotatedRelationshipElement",
                 "Entity", "BasicEventElement", "Operation", "Capability", "SubmodelElementCollection", "SubmodelElementList"]
-DEPTHS = [120, 260, 400, 700, 1500, 100000]
+DEPTHS = [120, 200, 250, 260, 300, 400, 700, 1500, 100000]
 
 
 def zoo_ref(rng: random.Random, model_ref: Optional[bool] = None, depth: int = 1) -> Dict[str, Any]:
@@ -346,7 +404,8 @@ def zoo_common(rng: random.Random, d: Dict[str, Any]) -> Dict[str, Any]:
     if rng.random() < 0.15:
         d["supplementalSemanticIds"] = [zoo_ref(rng) for _ in range(rng.randint(1, 2))]
     if rng.random() < 0.3:
-        d["qualifiers"] = [{"type": t, "valueType": "xs:string", "value": S(rng, f"v{rng.randrange(3)}", "value"), **({"valueId": zoo_ref(rng)} if rng.random() < 0.3 else {})}
+        d["qualifiers"] = [{"type": t, **dict(zip(("valueType", "value"), ("xs:string", S(rng, f"v{rng.randrange(3)}", "value")) if rng.random() < 0.6 else typed_lit(rng))),
+                            **({"valueId": zoo_ref(rng)} if rng.random() < 0.3 else {})}
                            for t in c10.QTYPES if rng.random() < 0.6]
         if not d["qualifiers"]:
             del d["qualifiers"]
@@ -357,7 +416,8 @@ def zoo_common(rng: random.Random, d: Dict[str, Any]) -> Dict[str, Any]:
     if rng.random() < 0.15:
         d["category"] = S(rng, rng.choice(["PARAMETER", "x"]), "category")
     if rng.random() < 0.15:
-        d["extensions"] = [{"name": "e1", "valueType": "xs:string", "value": "x", **({"refersTo": [zoo_ref(rng, True)]} if rng.random() < 0.5 else {})}]
+        d["extensions"] = [{"name": "e1", **dict(zip(("valueType", "value"), ("xs:string", "x") if rng.random() < 0.5 else typed_lit(rng))),
+                            **({"refersTo": [zoo_ref(rng, True)]} if rng.random() < 0.5 else {})}]
     return d
 
 
@@ -370,13 +430,18 @@ def zoo_elem(rng: random.Random, ids: Optional[str], depth: int = 2, cls: Option
     kids = lambda: [zoo_elem(rng, n, depth - 1) for n in rng.sample(c10.IDSHORTS, rng.randint(0, 2))] if depth > 0 else []
     data = lambda n: zoo_elem(rng, n, 0, rng.choice(["Property", "Range", "MultiLanguageProperty", "Blob", "File", "ReferenceElement"]))
     if cls == "Property":
-        d.update(valueType="xs:string", value=S(rng, rng.choice(["v", "", "1"]), "value"))
+        vt, v = typed_lit(rng)
+        d.update(valueType=vt, value=v)
         if rng.random() < 0.2:
             d["valueId"] = zoo_ref(rng)
     elif cls == "MultiLanguageProperty":
         d["value"] = [{"language": "en", "text": S(rng, "x", "text")}]
     elif cls == "Range":
-        d.update(valueType="xs:int", min="1", max="2")
+        if rng.random() < 0.5:
+            d.update(valueType="xs:int", min="1", max="2")
+        else:
+            vt, lo = typed_lit(rng, rng.choice(sorted(TYPED_EDGE)))
+            d.update(valueType=vt, min=lo, max=rng.choice([lo, typed_lit(rng, vt)[1]]))
     elif cls == "Blob":
         d.update(contentType=S(rng, rng.choice(c10.ATT_CTYPES), "contentType"))
         if rng.random() < 0.7:
@@ -408,8 +473,21 @@ def zoo_elem(rng: random.Random, ids: Optional[str], depth: int = 2, cls: Option
     elif cls == "SubmodelElementCollection":
         d["value"] = kids()
     elif cls == "SubmodelElementList":
-        d.update(typeValueListElement="Property", valueTypeListElement="xs:string",
-                 value=[{"modelType": "Property", "valueType": "xs:string", "value": str(k)} for k in range(rng.randint(0, 2))])
+        # (round 4) element class x value type x semanticIdListElement, with children that fit (c10.doc_list) - a replacement of a stored
+        # list is then mostly a list of another type; now and then the type attributes do not fit the children
+        d = c10.doc_list(rng, ids)
+        x = rng.random()
+        if x < 0.1:
+            d["typeValueListElement"] = rng.choice(c10.LIST_TYPES + ["SubmodelElementList", "Operation"])
+        elif x < 0.2:
+            d["valueTypeListElement"] = rng.choice(sorted(TYPED_EDGE))
+        elif x < 0.25:
+            d.pop("valueTypeListElement", None)
+        elif x < 0.3:
+            d["semanticIdListElement"] = zoo_ref(rng)
+        elif x < 0.4 and d.get("value"):
+            d["value"].append(zoo_elem(rng, None, 1))
+        return d
     return zoo_common(rng, d)
 
 
@@ -492,8 +570,25 @@ def nest(shape: str, depth: int) -> bytes:
     if shape == "collection":     # a well-formed submodel element: collections within collections
         return (b'{"modelType":"SubmodelElementCollection","idShort":"c1","value":[' * depth + b'{"modelType":"Property","idShort":"a","valueType":"xs:string"}'
                 + b"]}" * depth)
+    if shape == "list":           # lists within lists
+        return (b'{"modelType":"SubmodelElementList","idShort":"c1","typeValueListElement":"SubmodelElementList","value":['
+                + b'{"modelType":"SubmodelElementList","typeValueListElement":"SubmodelElementList","value":[' * (depth - 1) + b"]}" * depth)
     if shape == "xml":
         return b'<a xmlns="https://admin-shell.io/aas/3/0">' + b"<a>" * depth + b"</a>" * depth + b"</a>"
+    if shape == "xml-collection":     # (round 4) the XML form of "collection": well-formed elements the constructors recurse into
+        o = b"<aas:submodelElementCollection><aas:idShort>c1</aas:idShort><aas:value>"
+        c = b"</aas:value></aas:submodelElementCollection>"
+        return (o.replace(b">", b' xmlns:aas="https://admin-shell.io/aas/3/0">', 1) + o * (depth - 1)
+                + b"<aas:property><aas:idShort>a</aas:idShort><aas:valueType>xs:string</aas:valueType></aas:property>" + c * depth)
+    if shape == "xml-list":
+        o = b"<aas:submodelElementList><aas:typeValueListElement>SubmodelElementList</aas:typeValueListElement><aas:value>"
+        c = b"</aas:value></aas:submodelElementList>"
+        first = o.replace(b">", b' xmlns:aas="https://admin-shell.io/aas/3/0"><aas:idShort>c1</aas:idShort>', 1)
+        return first + o * (depth - 1) + c * depth
+    if shape == "xml-entity":
+        o = b"<aas:entity><aas:idShort>c1</aas:idShort><aas:entityType>CoManagedEntity</aas:entityType><aas:statements>"
+        c = b"</aas:statements></aas:entity>"
+        return o.replace(b">", b' xmlns:aas="https://admin-shell.io/aas/3/0">', 1) + o * (depth - 1) + c * depth
     raise ValueError(shape)
 
 
@@ -649,6 +744,17 @@ def related_classes(cls: str) -> List[str]:
 ABS_CLASS = {"prop": "Property", "coll": "SubmodelElementCollection", "file": "File", "blob": "Blob"}
 
 
+def zoo_like(rng: random.Random, stored: Dict[str, Any], depth: int = 2) -> Dict[str, Any]:
+    """(round 4) a document for the replacement of a stored element (as the snapshot shows it): its idShort, mostly its class (so that
+    update_from works in place and meets, e.g., a list of another type), and below a collection mostly the stored children again"""
+    cls = stored_class(stored)
+    d = zoo_elem(rng, stored.get("ids"), depth, cls if cls in ELEM_CLASSES and rng.random() < 0.85 else None)
+    if d.get("modelType") == "SubmodelElementCollection" and stored.get("ch") and depth > 0:
+        kept = [zoo_like(rng, c, depth - 1) for c in stored["ch"] if rng.random() < 0.75]
+        d["value"] = kept + [c for c in d.get("value", []) if all(c.get("idShort") != k.get("idShort") for k in kept)]
+    return d
+
+
 def stored_class(e: Optional[Dict[str, Any]]) -> Optional[str]:
     if e is None:
         return None
@@ -666,6 +772,14 @@ def zoo_request(rng: random.Random, snapshot: List[Any], setup: bool = False) ->
         doc = zoo_doc(rng, kind, i)
         if kind == "sm" and len(doc["submodelElements"]) < 2:
             doc["submodelElements"] = [zoo_elem(rng, n) for n in c10.IDSHORTS]
+        if kind == "sm":
+            # (round 4) something for the attachment requests to work on: a File that can take an upload, a File whose value names a
+            # file the container does not hold (or an external one)
+            if rng.random() < 0.75:
+                doc["submodelElements"].append({"modelType": "File", "idShort": "f1", "contentType": rng.choice(c10.ATT_CTYPES)})
+            if rng.random() < 0.5:
+                doc["submodelElements"].append({"modelType": "File", "idShort": "f2", "contentType": rng.choice(c10.ATT_CTYPES),
+                                                "value": rng.choice(c10.FILE_NAMES + ["/f/never-uploaded.bin", "http://x/y.txt"])})
         return c10.mk_req("POST", [c10.TOP[kind]], rng.choice([0, 1, 2]), 0, "raw", json_bytes(doc))
     acc = rng.choice([0, 1, 2, 2, 3, 4, 6, 7, rng.randrange(len(c10.ACCEPTS))])
     level = rng.choice([None, None, None, "core", "deep"])
@@ -684,6 +798,9 @@ def zoo_request(rng: random.Random, snapshot: List[Any], setup: bool = False) ->
         method, segs, kind, doc = "POST", ["submodels"], "sm", zoo_doc(rng, "sm", i)
     elif r < 0.24:
         method, segs, kind, doc = "PUT", ["submodels", seg(smid)], "sm", zoo_doc(rng, "sm", smid if rng.random() < 0.9 else rng.choice(c10.IDS))
+        if tsm and tsm["root"].get("ch") and rng.random() < 0.6:
+            kept = [zoo_like(rng, c) for c in tsm["root"]["ch"] if rng.random() < 0.75]
+            doc["submodelElements"] = kept + [c for c in doc["submodelElements"] if all(c.get("idShort") != k.get("idShort") for k in kept)]
     elif r < 0.36:
         colls = [p for p, e in paths if stored_class(e) in ("SubmodelElementCollection",)]
         p = rng.choice(colls) if colls and rng.random() < 0.4 else []
@@ -693,15 +810,18 @@ def zoo_request(rng: random.Random, snapshot: List[Any], setup: bool = False) ->
         # PUT of an element: mostly onto one that is stored, with its own class, a class related to it by inheritance, or any other
         if paths and rng.random() < 0.9:
             with_rel = [(p, e) for p, e in paths if related_classes(stored_class(e) or "")]
-            p, e = rng.choice(with_rel if with_rel and rng.random() < 0.5 else paths)
+            lists = [(p, e) for p, e in paths if stored_class(e) == "SubmodelElementList" or "SubmodelElementList" in json.dumps(e)]
+            p, e = rng.choice(lists if lists and rng.random() < 0.3 else with_rel if with_rel and rng.random() < 0.5 else paths)
             cls = stored_class(e)
             rel = related_classes(cls) if cls else []
             x = rng.random()
             body_cls = cls if (x < 0.4 or not rel and x < 0.75) and cls in ELEM_CLASSES else (rng.choice(rel) if rel and x < 0.8 else rng.choice(ELEM_CLASSES))
         else:
-            p, body_cls = c10.rand_path(rng), rng.choice(ELEM_CLASSES)
+            p, body_cls, e = c10.rand_path(rng), rng.choice(ELEM_CLASSES), None
         method, segs, kind = "PUT", ["submodels", seg(smid), "submodel-elements", ".".join(p)], "elem"
         doc = zoo_elem(rng, p[-1] if rng.random() < 0.9 else rng.choice(c10.IDSHORTS), 2, body_cls)
+        if e is not None and body_cls == "SubmodelElementCollection" and e.get("ch") and rng.random() < 0.7:
+            doc = zoo_like(rng, e)
     elif r < 0.62:
         sh = rng.choice(shells)["id"] if shells and rng.random() < 0.8 else rng.choice(c10.IDS)
         x = rng.random()
@@ -733,11 +853,18 @@ def zoo_request(rng: random.Random, snapshot: List[Any], setup: bool = False) ->
         # attachments: uploads (well-formed and not), downloads, deletions — mostly on Files / Blobs that exist
         atts = [p for p, e in paths if stored_class(e) in ("File", "Blob")]
         p = rng.choice(atts) if atts and rng.random() < 0.85 else (rng.choice(paths)[0] if paths else c10.rand_path(rng))
-        segs = ["submodels", seg(smid), "submodel-elements", ".".join(p), "attachment"]
         method = rng.choice(["PUT", "PUT", "GET", "GET", "GET", "DELETE"])
+        free = [(p2, e) for p2, e in paths if e.get("k") == "file" and not e.get("val")]
+        stored_cty = None
+        if method == "PUT" and free and rng.random() < 0.7:
+            p, e = rng.choice(free)         # a File that can take an upload, mostly with the content type it asks for
+            stored_cty = e.get("cty")
+        segs = ["submodels", seg(smid), "submodel-elements", ".".join(p), "attachment"]
         if method == "PUT":
-            fname = rng.choice(c10.FILE_NAMES * 3 + ["a.txt", None] + ODD_STRINGS[:8])
+            fname = rng.choice(c10.FILE_NAMES * 4 + ["a.txt", None] + ODD_STRINGS[:8] + ["/" + x for x in ODD_STRINGS] + LONG_NAMES + LONG_NAMES[:1] * 5)
             mime = rng.choice(c10.ATT_CTYPES * 3 + ["", "text/plain; charset=x", ODD_STRINGS[4]])
+            if stored_cty is not None and rng.random() < 0.8:
+                mime = stored_cty
             form = {"fileName": fname, "file": rng.choice([[base64.b64encode(rng.choice(c10.FILE_BYTES)).decode("ascii"), rng.choice(["a.txt", "", "ä"]), mime]] * 6 + [None])}
     else:
         # reads with further query parameters: filters (well-formed and not), redirects, references, metadata
@@ -765,14 +892,26 @@ def zoo_request(rng: random.Random, snapshot: List[Any], setup: bool = False) ->
     fmt_xml = rng.random() < 0.35
     x = rng.random()
     ct = rng.choice([1, 2, 3]) if fmt_xml else rng.choice([0, 0, 4])
-    if x < 0.06:
+    if x < 0.07:
         d = rng.choice(DEPTHS)
-        shape = "xml" if fmt_xml else rng.choice(["array", "open-array", "object", "collection"])
-        data = nest(shape, min(d, 3000) if shape == "collection" else d)
-        if shape == "collection" and kind == "sm":
+        shape = rng.choice(["xml", "xml-collection", "xml-collection", "xml-list", "xml-entity"]) if fmt_xml else \
+            rng.choice(["array", "open-array", "object", "collection", "collection", "list"])
+        data = nest(shape, min(d, 3000) if shape in ("collection", "list") or shape.startswith("xml-") else d)
+        if shape in ("collection", "list") and kind == "sm":
             data = b'{"modelType":"Submodel","id":' + json.dumps(doc.get("id", "s")).encode() + b',"submodelElements":[' + data + b"]}"
+        elif shape.startswith("xml-") and kind == "sm":
+            from xml.sax.saxutils import escape
+            data = (b'<aas:submodel xmlns:aas="https://admin-shell.io/aas/3/0"><aas:id>' + escape(str(doc.get("id", "s"))).encode("utf-8")
+                    + b"</aas:id><aas:submodelElements>" + data + b"</aas:submodelElements></aas:submodel>")
     elif fmt_xml:
-        data = xml_of(kind, doc)
+        # the XML form: through the SDK (its JSON reader and XML writer), or - what the SDK does not take or cannot write (round 4: a value
+        # its printer refuses) and now and then anyway - through the hand-written correspondence of the two formats
+        data = None if kind in ("sm", "elem", "shell", "cd") and rng.random() < 0.3 else xml_of(kind, doc)
+        if data is None and isinstance(doc, dict) and isinstance(doc.get("modelType"), str) and doc["modelType"]:
+            try:
+                data = c10.xml_of_doc(doc)
+            except Exception:       # a document that has no XML form (a string XML cannot carry, a member that is no string ...)
+                data = None
         if data is None:
             ct, data = 0, json_bytes(doc)
         elif x < 0.5:
@@ -806,14 +945,16 @@ def read_back(rng: random.Random, R: Dict[str, Any], out: Any, snap: List[Any]) 
     o = next((x for x in snap if x.get("k") == kind and x.get("id") == i), None)
     if o is None:
         return []
-    acc = rng.choice([2, 2, 3, 1])
-    rs = [c10.mk_req("GET", [top, c10.b64(i)], acc, level=rng.choice([None, None, "core"]))]
+    # in both representations: what a body got into the store must come out of it again as JSON and as XML
+    rs = [c10.mk_req("GET", [top, c10.b64(i)], acc, level=rng.choice([None, None, "core"])) for acc in (rng.choice([2, 3]), rng.choice([0, 1]))]
     if kind == "sm":
         atts = [p for p, e in c10.all_paths(o["root"]) if stored_class(e) in ("File", "Blob")]
         for p in rng.sample(atts, min(len(atts), 3)):
             rs.append(c10.mk_req("GET", [top, c10.b64(i), "submodel-elements", ".".join(p), "attachment"], rng.choice([0, 2])))
         if len(segs) >= 4 and segs[2] == "submodel-elements" and segs[3] not in LITERALS:
-            rs.append(c10.mk_req("GET", segs[:4], acc))
+            rs += [c10.mk_req("GET", segs[:4], acc) for acc in (rng.choice([2, 3]), 1)]
+        if rng.random() < 0.3:
+            rs.append(c10.mk_req("GET", [top, c10.b64(i), "submodel-elements"], rng.choice([1, 2, 3]), limit="100"))
     return rs
 
 
@@ -895,8 +1036,12 @@ def oracle(ctx: C.Ctx, cov: C.Coverage) -> List[C.Failing]:
                            "types, renamed / removed / emptied XML elements), bodies nested 120..100000 deep, strings hostile to XML text and HTTP "
                            "headers, PUT bodies of the stored class / a class related to it by inheritance / any class, multipart uploads "
                            "(well-formed and not), raw query strings (non-ASCII, idShort / semanticId / assetIds filters carrying JSON, mutated), "
-                           "read-back of every accepted write in XML and of its attachments; the snapshot compared around a 4xx holds every "
-                           "stored object in full and the file container")
+                           "read-back of every accepted write in JSON and XML and of its attachments; (round 4) lists of 10 element types x value "
+                           "types x semanticIdListElement (fitting and not), replacements that keep the stored classes under the stored idShorts (a "
+                           "list meets a list of another type, also inside a replaced ancestor), XML bodies of nested collections / lists / entities "
+                           "120..3000 deep, lexical edge cases of 30 value types in Property / Range / Qualifier / Extension values, uploads under file "
+                           "names around and beyond the PathType limit and with characters AASd-130 excludes; the snapshot compared around a 4xx "
+                           "holds every stored object in full and the file container")
     for k in range(ctx.budget(400, 3000)):
         fb = k % 6 == 5
         chk = Checker(fb)
